@@ -25,7 +25,7 @@ class Machinery(Exception):
 # --------------------------------------------------------------------------- models
 class Model:
     def __init__(self, module, constants, invariants=(), properties=(), constraints=(),
-                 action_constraints=(), workers=8, simulate=None, depth=None, label=None,
+                 action_constraints=(), workers=2, simulate=None, depth=None, label=None,
                  expect_vectors=True, coverage=False, spec="Spec"):
         self.module = module
         self.constants = constants
@@ -224,6 +224,24 @@ class Outcome:
               f"validated_traces={self.traces_validated} violations={len(self.violations)} "
               f"known={sum(self.known_hits.values())} wall={ev['wall_s']}s")
         return status
+
+
+_TAG = __import__("re").compile(r"\{(C\d+(?:,C\d+)*)\}")
+
+
+def for_property(bad, prop):
+    """Keep, per vector, the problems that are violations of `prop`: a problem may carry a tag
+    {C05,C13} naming the properties it violates; untagged problems count for every property."""
+    out = []
+    for vec, probs in bad:
+        keep = []
+        for p in probs:
+            m = _TAG.search(p)
+            if p.startswith("MACHINERY") or m is None or prop in m.group(1).split(","):
+                keep.append(p)
+        if keep:
+            out.append((vec, keep))
+    return out
 
 
 def sample_of(vec, maxlen=600):
